@@ -136,6 +136,8 @@ def exc_sig(e, root=None):
     """ExcClass@module.function of the innermost frame inside the ndn package"""
     import os
     from . import loader
+    if isinstance(e, RecursionError):
+        return 'RecursionError'          # the frame where the limit is hit depends on the interpreter stack depth
     root = os.path.join(loader.ROOT, 'ndn') + os.sep
     tb = e.__traceback__
     where = None
